@@ -248,6 +248,11 @@ def run(rng: Rng, tier: str, index: int) -> RunResult:
         attack("pair", "%s{%s} + %s{%s}" % (k1, d1, k2, d2), out[0], out[1], nondet=True, slot=pi)
 
     # ---- splices between tokens of the same key and of another key ----
+    if form == "general":
+        for kind, desc, fn in F.splice_faults((A.ser, A.detached), (B.ser, B.detached), "samekey"):
+            out = F.apply(A.ser, A.detached, [fn])
+            if out and out != (B.ser, B.detached) and out != (A.ser, A.detached):
+                attack(kind, desc, out[0], out[1], nondet=randomized)
     if form != "general":
         try:
             kc = K.key_for_jws(rng.sub("keyC"), alg, dict(rkeys[0].params), avoid=rkeys[0])
